@@ -31,16 +31,11 @@ class Skip(Exception):
 
 
 def timed(f, limit=4):
-    import signal
-
-    signal.signal(signal.SIGALRM, _alarm)
-    signal.alarm(limit)
     try:
-        return f()
-    except _Timeout:
-        raise Skip("slow")
-    finally:
-        signal.alarm(0)
+        with U.time_limit(limit):
+            return f()
+    except U.TimeLimit:
+        raise Skip("slow") from None
 
 
 def attrs_equal(a, b):
@@ -49,6 +44,20 @@ def attrs_equal(a, b):
         if type(x) is not type(y) or x != y:
             return False
     return True
+
+
+def deep_has(e, k):
+    """k occurs in e, also inside SymPy objects held by non-SymPy fields (Basic.has only sees args)"""
+    if e == k:
+        return True
+    if not isinstance(e, sp.Basic):
+        return False
+    if U.is_decorated(type(e)):
+        for f in U.attr_fields(type(e)):
+            v = getattr(e, f.name)
+            if isinstance(v, sp.Basic) and deep_has(v, k):
+                return True
+    return any(deep_has(a, k) for a in e.args)
 
 
 def tuple_where_instance(before, after):
@@ -70,7 +79,7 @@ def check_case(case):
         if kind == "nested":
             (k, v), = m.items()
             for op, res in (("xreplace", obj.xreplace(m)), ("subs", obj.subs(k, v))):
-                if res.has(k):
+                if deep_has(res, k):
                     return kind, ("replacement_skipped_nested", f"{op}({k}->{v}) left {k} inside {str(res)[:150]}")
                 if tuple_where_instance(obj, res):
                     return kind, ("nested_argument_became_tuple", f"{op}({k}->{v}) turned a nested expression into a Tuple: {str(res)[:150]}")
@@ -149,25 +158,9 @@ def tuple_(x):
 
 
 def numeric_equal(a, b):
-    syms = sorted((a.free_symbols | b.free_symbols), key=str)
     if any(isinstance(n, (sp.Tuple,)) for n in (a, b)):
         return None
-    rng = np.random.default_rng(11)
-    try:
-        for _ in range(3):
-            pt = {s: sp.Rational(int(rng.integers(11, 97)), int(rng.integers(7, 23))) for s in syms}
-            x = complex(timed(lambda: a.xreplace(pt).doit().evalf(30)))
-            y = complex(timed(lambda: b.xreplace(pt).doit().evalf(30)))
-            if not (np.isfinite(x) and np.isfinite(y)):
-                return None
-            # 30-digit evaluation of both sides; they are the same function, so only rounding remains
-            if abs(x - y) > 1e-9 * max(1.0, abs(x)):
-                return False
-        return True
-    except Skip:
-        return None
-    except Exception:  # noqa: BLE001
-        return None
+    return U.numeric_equal(a, b)
 
 
 def numpy_case(obj, pseed):
@@ -201,11 +194,21 @@ def numpy_array_instances():
     from ampform.kinematics.lorentz import EuclideanNorm, EuclideanNormSquared, FourMomentumSymbol, ThreeMomentum
     from ampform.sympy.math import ComplexSqrt
 
+    from ampform.sympy._array_expressions import ArraySum
+
     p = FourMomentumSymbol("p", shape=[])
+    q = FourMomentumSymbol("q", shape=[])
     x = sp.Symbol("x")
-    return [(EuclideanNorm(ThreeMomentum(p)), [p], "array"), (EuclideanNormSquared(ThreeMomentum(p)), [p], "array"),
-            (ThreeMomentum(p), [p], "array"), (EuclideanNorm(p), [p], "array"),
-            (ComplexSqrt(x), [x], "scalar")]
+    out = [(EuclideanNorm(ThreeMomentum(p)), [p], "array"), (EuclideanNormSquared(ThreeMomentum(p)), [p], "array"),
+           (ThreeMomentum(p), [p], "array"), (EuclideanNorm(p), [p], "array"),
+           (ComplexSqrt(x), [x], "scalar")]
+    # compound vector arguments (sums, differences, multiples): operator precedence in the printed code
+    vecs = [ArraySum(ThreeMomentum(p), ThreeMomentum(q)), ThreeMomentum(p) - ThreeMomentum(q),
+            ThreeMomentum(p) + 2 * ThreeMomentum(q), -ThreeMomentum(p), ThreeMomentum(ArraySum(p, q)), ArraySum(p, q)]
+    for v in vecs:
+        out.append((EuclideanNormSquared(v), [p, q], "array"))
+        out.append((EuclideanNorm(v), [p, q], "array"))
+    return out
 
 
 def numpy_array_case(index, pseed):
@@ -215,17 +218,39 @@ def numpy_array_case(index, pseed):
     f2 = sp.lambdify(syms, unfolded, "numpy", cse=True)
     rng = np.random.default_rng(pseed)
     if shape == "array":
-        pt = rng.integers(-32, 32, size=(5, 4)) / 8.0
+        pts = [rng.integers(-32, 32, size=(5, 4)) / 8.0 for _ in syms]
     else:
-        pt = rng.integers(-32, 32, size=6) / 8.0
-    a, b = np.asarray(f1(pt), dtype=complex), np.asarray(f2(pt), dtype=complex)
+        pts = [rng.integers(-32, 32, size=6) / 8.0 for _ in syms]
+    a, b = np.asarray(f1(*pts), dtype=complex), np.asarray(f2(*pts), dtype=complex)
     if a.shape != b.shape or not np.allclose(a, b, rtol=1e-12, atol=1e-12, equal_nan=True):
         return ("numpy_folded_vs_unfolded", f"lambdify({e}) != lambdify(unfolded) on a random array (seed {pseed})")
     return None
 
 
+def lambda_attrs():
+    from ampform.dynamics.phasespace import BreakupMomentumSquared, PhaseSpaceFactor
+
+    S, A, B, c = sp.symbols("S A B c")
+    return [U.attr_ir(sp.Lambda((S, A, B), (1 + c * S) * PhaseSpaceFactor(S, A, B))),
+            U.attr_ir(sp.Lambda((S, A, B), sp.sqrt(S) / (1 + c ** 2 * BreakupMomentumSquared(S, A, B))))]
+
+
+def put_lambda(g, ir):
+    """replace the phsp_factor of one EnergyDependentWidth node by a Lambda with the free parameter c"""
+    if ir[0] == "U" and ir[1] == "ampform.dynamics.EnergyDependentWidth":
+        return ("U", ir[1], ir[2], [g.r.choice(lambda_attrs()), ir[3][1]]), True
+    if ir[0] in "AU":
+        args, done = [], False
+        for a in ir[2]:
+            if not done:
+                a, done = put_lambda(g, a)
+            args.append(a)
+        return ((ir[0], ir[1], args) + tuple(ir[3:])), done
+    return ir, False
+
+
 def gen_cases(seed, n):
-    g = G.Gen(seed * 104729 + 5)
+    g = G.Gen(seed * 104729 + 5, poolsum=True)
     cases = []
     # fixed regression cases first (the pinned-tree defect and the known collision)
     s, m1, m2 = ("Y", "Symbol('s')"), ("Y", "Symbol('m1')"), ("Y", "Symbol('m2')")
@@ -236,6 +261,27 @@ def gen_cases(seed, n):
     cases.append({"kind": "commute", "ir": nested, "er": [(m1, ("Y", "Symbol('x')"))]})
     cases.append({"kind": "eq", "ir": ("U", bms, [s, ("N", 1, 1), ("N", 2, 1)], [("s", "builtins.NoneType")]),
                   "irb": ("U", bms, [s, ("N", 1, 1), ("N", 2, 1)], [("n",)])})
+    # PoolSum with SYMBOLIC pool values, alone and nested; the map touches only the pool values
+    x, a, i_ = ("Y", "Symbol('x')"), ("Y", "Symbol('a')"), ("Y", "Symbol('i')")
+    ps_ = ("A", G.POOLSUM, [("A", "sympy.core.power.Pow", [x, i_]), ("A", G.TUPLE, [i_, ("A", G.TUPLE, [a, ("N", 2, 1)])])])
+    kal = ("U", "ampform.kinematics.phasespace.Kallen", [ps_, ("Y", "Symbol('y')"), s], [])
+    for tree in (ps_, kal):
+        cases.append({"kind": "nested", "ir": tree, "er": [(a, ("Y", "Symbol('fresh_t')"))]})
+        cases.append({"kind": "commute", "ir": tree, "er": [(a, ("N", 1, 1))]})
+    # distinct callables sharing module.qualname in a non-SymPy attribute: must compare unequal
+    edw = "ampform.dynamics.EnergyDependentWidth"
+    eargs = [s, ("Y", "Symbol('m0')"), ("Y", "Symbol('w0')"), m1, m2, ("N", 0, 1), ("N", 1, 1)]
+    for a1, a2 in ((("o", "uneval_ir.CLOSURE_A"), ("o", "uneval_ir.CLOSURE_B")),
+                   (("o", "uneval_ir.LAMBDA_A[0]"), ("o", "uneval_ir.LAMBDA_A[1]"))):
+        cases.append({"kind": "eq", "ir": ("U", edw, eargs, [a1, ("n",)]), "irb": ("U", edw, eargs, [a2, ("n",)])})
+    cases.append({"kind": "eq", "ir": ("U", bms, [s, m1, m2], [("o", "uneval_ir.CLOSURE_A")]),
+                  "irb": ("U", bms, [s, m1, m2], [("o", "uneval_ir.CLOSURE_B")])})
+    # a SymPy callable with a free parameter in a sympify=False field: substitution must reach it
+    for lam in lambda_attrs():
+        t = ("U", edw, eargs, [lam, ("n",)])
+        cases.append({"kind": "commute", "ir": t, "er": [(("Y", "Symbol('c')"), ("N", 3, 2))]})
+        cases.append({"kind": "commute_subs", "ir": t, "er": [(("Y", "Symbol('c')"), ("Y", "Symbol('t')"))]})
+        cases.append({"kind": "nested", "ir": t, "er": [(("Y", "Symbol('c')"), ("Y", "Symbol('fresh_t')"))]})
     import corr_uneval as C
 
     for i in range(len(numpy_array_instances())):
@@ -247,6 +293,11 @@ def gen_cases(seed, n):
         k = g.r.choice(["commute", "commute", "commute_subs", "nested", "eq", "eq", "func", "numpy"])
         if k in ("commute", "commute_subs", "nested"):
             if G.has_unhashable(ir):
+                continue
+            ir2, done = put_lambda(g, ir) if g.r.random() < 0.5 else (ir, False)
+            if done:
+                cases.append({"kind": k, "ir": ir2, "er": [(("Y", "Symbol('c')"),
+                              ("Y", "Symbol('fresh_t')") if k == "nested" else g.r.choice([("N", 3, 2), ("Y", "Symbol('t')")]))]})
                 continue
             kind, er, ar = g.rule(ir)
             er = [(a, b) for a, b in er if a[0] == "Y"]
@@ -296,7 +347,8 @@ def main():
             kinds["skipped:ir"] = kinds.get("skipped:ir", 0) + 1
             continue
         except Exception as e:  # noqa: BLE001
-            kinds["skipped:exception"] = kinds.get("skipped:exception", 0) + 1
+            kk = "skipped:exception:" + type(e).__name__ + ":" + c["kind"]
+            kinds[kk] = kinds.get(kk, 0) + 1
             continue
         ev += 1
         kinds[kind] = kinds.get(kind, 0) + 1
